@@ -1,6 +1,7 @@
 package main
 
 import (
+	"regexp"
 	"fmt"
 	"strings"
 	"go/constant"
@@ -150,8 +151,18 @@ func newTr(w *World, sp *Specs, ms *ModSets, fn *ssa.Function) *Tr {
 // ---------------------------------------------------------------------------
 // obligations
 
+// a clause label of the form [Cxx:name] restricts the clause to the check of property Cxx (a function may serve
+// several properties with clauses that belong to one of them only)
+var clausePropRe = regexp.MustCompile(`(?:^|\.)(C\d\d):`)
+
+// currentProp is the property being checked ("" = all)
+var currentProp string
+
 func (t *Tr) addObl(kind, suffix string, pos token.Pos, reach, goal Term, desc string) *Obligation {
 	if !t.verify {
+		return nil
+	}
+	if m := clausePropRe.FindStringSubmatch(suffix); m != nil && currentProp != "" && m[1] != currentProp {
 		return nil
 	}
 	name := t.key + "#" + kind
